@@ -123,6 +123,26 @@ func c09Valid(c *choice.Ctx, st *Stats, a *refmodel.Claims, x psatoken.IClaims, 
 	st.Outcome("identity-ok")
 }
 
+// addThroughContainer validates and reads x, then appends one entry through the exported SwComponents field.
+func addThroughContainer(x psatoken.IClaims, sc *refmodel.Comp) bool {
+	_ = x.Validate()
+	_, _ = x.GetSoftwareComponents()
+	var cont psatoken.ISwComponents
+	switch t := x.(type) {
+	case *psatoken.P1Claims:
+		cont = t.SwComponents
+	case *psatoken.P2Claims:
+		cont = t.SwComponents
+	}
+	if cont == nil {
+		return false
+	}
+	if _, err := cont.Values(); err != nil {
+		return false
+	}
+	return cont.Add(realComp(sc)) == nil
+}
+
 // c10Strict: the encoding of valid x is exactly the profile's wire format of a.
 func c10Strict(c *choice.Ctx, st *Stats, a *refmodel.Claims, enc []byte, tag string, extraKeys map[int64]bool) {
 	desc := ""
@@ -511,8 +531,13 @@ func init() {
 					c.Failf("C10:encode-error:"+tag, "%v", err)
 					return
 				}
-				what := c.Choose("change", 4)
+				what := c.Choose("change", 5)
 				switch what {
+				case 4:
+					if len(a.Comps) == 0 || !addThroughContainer(x, fullComp(0xdc, 48)) {
+						return
+					}
+					a.Comps = append(append([]*refmodel.Comp{}, a.Comps...), fullComp(0xdc, 48))
 				case 0:
 					if len(a.Comps) == 0 {
 						return
@@ -664,8 +689,13 @@ func init() {
 				if _, err := psatoken.EncodeClaimsToCBOR(x); err != nil {
 					return
 				}
-				what := c.Choose("change", 3)
+				what := c.Choose("change", 4)
 				switch what {
+				case 3: // an entry added through the exported container, after the claims-set has been validated and read
+					if len(a.Comps) == 0 || !addThroughContainer(x, okComp(0xdb, 32)) {
+						return
+					}
+					a.Comps = append(append([]*refmodel.Comp{}, a.Comps...), okComp(0xdb, 32))
 				case 0:
 					if len(a.Comps) == 0 {
 						return
@@ -696,6 +726,55 @@ func init() {
 				encStats.StateStr(tag + a.String())
 				if g, w := getterVector(x), expectedVector(a); g != w {
 					c.Failf("C09:changed-object-getters:"+tag, "after the change the getters are\n got  %s\n want %s", g, w)
+					return
+				}
+				c09Valid(c, encStats, a, x, tag)
+			}, nil
+		}
+	}
+	// C09: the per-type decode methods on an object that has already refused an input
+	for kind := 0; kind < 2; kind++ {
+		kind := kind
+		Scenarios[fmt.Sprintf("c09.method-decode-after-rejected.%s", kindNames[kind])] = func() (choice.Scenario, func() any) {
+			return func(c *choice.Ctx) {
+				a := genValid(c, kind, false)
+				x, err := psatoken.NewClaims(a.Canon)
+				if err != nil {
+					panic(choice.HarnessError{Msg: "NewClaims: " + err.Error()})
+				}
+				json := c.Choose("codec", 2) == 1
+				n := c.Choose("rejected-inputs-before", 3)
+				rej := [][]byte{{0xff}, {}, {0x80}}
+				if json {
+					rej = [][]byte{[]byte("["), {}, []byte("[]")}
+				}
+				um := func(in []byte) error {
+					if json {
+						return x.(interface{ UnmarshalJSON([]byte) error }).UnmarshalJSON(in)
+					}
+					return x.(interface{ UnmarshalCBOR([]byte) error }).UnmarshalCBOR(in)
+				}
+				for i := 0; i < n; i++ {
+					if um(rej[i]) == nil {
+						return // not refused: nothing to say here
+					}
+				}
+				in := mcbor.Encode(wireTree(a, true))
+				if json {
+					in = wireJSON(a)
+				}
+				tag := fmt.Sprintf("%s:method-decode:json=%v:after-%d-rejected", kindNames[kind], json, n)
+				encStats.StateStr(tag + a.String())
+				if err := um(in); err != nil {
+					c.Failf("C09:method-decode-error:"+tag, "%v\n%s", err, a.String())
+					return
+				}
+				if g, w := getterVector(x), expectedVector(a); g != w {
+					c.Failf("C09:method-decode-getters:"+tag, "got  %s\nwant %s", g, w)
+					return
+				}
+				if err := x.Validate(); err != nil {
+					c.Failf("C09:method-decode-invalid:"+tag, "%v", err)
 					return
 				}
 				c09Valid(c, encStats, a, x, tag)
@@ -777,6 +856,7 @@ func init() {
 					exploreChoice(r, "c09.ext-wide", -1, dl)
 					for kind := 0; kind < 2; kind++ {
 						exploreChoice(r, fmt.Sprintf("c09.decode-change-roundtrip.%s", kindNames[kind]), b, dl)
+						exploreChoice(r, fmt.Sprintf("c09.method-decode-after-rejected.%s", kindNames[kind]), b, dl)
 					}
 				}
 				exploreChoiceOpts(r, registerAfterPriorCalls(lp+".valid.P1"), 2, dl, 1)
